@@ -293,7 +293,7 @@ def run(ctx):
                     cur = o.get("hist", "")
                     hist[re.sub(r"-\d+(-pos\d+-[a-z-]+)?$", "", cur)] += 1
                     n_adm, maxclk = 0, 0
-                elif o["op"] == "add":
+                elif o["op"] in ("add", "dupadd"):
                     n_adm += 1
                     maxclk = max(maxclk, o.get("clk", 0))
             if cur is not None:
